@@ -10,6 +10,7 @@ import (
 	"sort"
 	"strconv"
 	"strings"
+	"time"
 
 	"github.com/youzan/ZanRedisDB/common"
 	"github.com/youzan/ZanRedisDB/rockredis"
@@ -17,14 +18,15 @@ import (
 
 // C14: (a) the real purgeOldCheckpoint vs the Lean model, (b) real Backup / Restore on a real store: the
 // logical dump after a restore equals the dump recorded at backup time; the checkpoint directory is unchanged.
-//   purge <keep> <latest> <term-index,…>            → remaining names, ascending
-//   open <eng> | w <n> | backup | restore <k> | end  → (not modelled in Lean; oracle)
+//
+//	purge <keep> <latest> <term-index,…>            → remaining names, ascending
+//	open <eng> | w <n> | backup | restore <k> | end  → (not modelled in Lean; oracle)
 func init() { register(&Proto{Name: "ckpt", Gen: genCkpt, New: newCkpt}) }
 
 func genCkpt(rng *rand.Rand, tier string, emit func(string)) {
-	n, sessions := 1500, 6
+	n, sessions := 1500, 24
 	if tier == "thorough" {
-		n, sessions = 60000, 120
+		n, sessions = 60000, 400
 	}
 	for i := 0; i < n; i++ {
 		k := rng.Intn(9)
@@ -53,14 +55,20 @@ func genCkpt(rng *rand.Rand, tier string, emit func(string)) {
 	}
 	for s := 0; s < sessions; s++ {
 		eng := []string{"pebble", "rocksdb", "pebble"}[rng.Intn(3)]
-		emit("open " + eng)
+		emit(fmt.Sprintf("open %s %d", eng, []int{20, 20, 1, 2, 3}[rng.Intn(5)]))
 		nb := 0
 		for i := 0; i < 14; i++ {
 			switch r := rng.Intn(10); {
 			case r < 5:
 				emit(fmt.Sprintf("w %d", 1+rng.Intn(40)))
 			case r < 8:
-				emit("backup")
+				emit(fmt.Sprintf("w %d", 1+rng.Intn(4))) // every checkpoint at its own index
+				if rng.Intn(2) == 0 {
+					// a checkpoint whose raft snapshot is never recorded (out of date, SaveSnap failed, crash before the record)
+					emit("backupu")
+				} else {
+					emit("backup")
+				}
 				nb++
 			default:
 				if nb > 0 {
@@ -105,6 +113,8 @@ func newCkpt(c *Ctx) func(string) string {
 		sum         string
 	}
 	var bks []bk
+	keep := 20         // KeepBackup of the session
+	lastRecorded := -1 // position in bks of the checkpoint of the newest RECORDED raft snapshot
 	sums := map[string]string{}
 	counter := 0
 	index := uint64(0)
@@ -133,7 +143,8 @@ func newCkpt(c *Ctx) func(string) string {
 			l, _ := db.LLen([]byte("t:l" + k))
 			z, _ := db.ZCard([]byte("t:z" + k))
 			cv, _ := db.KVGet([]byte("t:c" + k))
-			fmt.Fprintf(h, "%s kv=%s h=%d/%s l=%d z=%d c=%s;", k, v, n, f, l, z, cv)
+			pf, _ := db.PFCount(time.Now().UnixNano(), []byte("t:p"+k))
+			fmt.Fprintf(h, "%s kv=%s h=%d/%s l=%d z=%d c=%s pf=%d;", k, v, n, f, l, z, cv, pf)
 		}
 		return fmt.Sprintf("%x", h.Sum(nil))[:16]
 	}
@@ -182,6 +193,13 @@ func newCkpt(c *Ctx) func(string) string {
 			cfg.ExpirationPolicy = common.WaitCompact
 			cfg.DataVersion = common.ValueHeaderV1
 			cfg.KeepBackup = 20
+			if len(f) > 2 {
+				if kb, err := strconv.Atoi(f[2]); err == nil && kb > 0 {
+					cfg.KeepBackup = kb
+				}
+			}
+			keep = cfg.KeepBackup
+			lastRecorded = -1
 			var err error
 			db, err = rockredis.OpenRockDB(cfg)
 			if err != nil {
@@ -220,10 +238,12 @@ func newCkpt(c *Ctx) func(string) string {
 					db.ZAdd(ts, []byte("t:z"+k), common.ScorePair{Score: float64(counter), Member: []byte(fmt.Sprintf("m%d", counter%4))})
 				case 4:
 					db.Incr(ts, []byte("t:c"+k))
+					// a HyperLogLog too (its writes go through a write-back cache that Backup has to flush)
+					db.PFAdd(ts, []byte("t:p"+k), []byte(fmt.Sprintf("e%d", counter)))
 				}
 			}
 			return "ok"
-		case "backup":
+		case "backup", "backupu":
 			bi := db.Backup(1, index)
 			if bi == nil {
 				return "err:busy"
@@ -234,7 +254,23 @@ func newCkpt(c *Ctx) func(string) string {
 			ckdir := filepath.Join(db.GetBackupDir(), rockredis.GetCheckpointDir(1, index))
 			bks = append(bks, bk{1, index, logical(), dirSum(ckdir)})
 			sums[ckdir] = dirSum(ckdir) // a backup at an index that already has a checkpoint replaces it (same logical content)
-			db.VerifSetLatestSnapIndex(index)
+			if f[0] == "backup" {
+				db.VerifSetLatestSnapIndex(index) // the raft snapshot of this checkpoint is recorded (UpdateSnapshotState)
+				lastRecorded = len(bks) - 1
+			}
+			// the purge runs in the backup loop after the backup result is published: give it a moment, then the checkpoint
+			// of the newest recorded raft snapshot must still be there (it is what a restart restores)
+			if lastRecorded >= 0 {
+				time.Sleep(60 * time.Millisecond)
+				lr := bks[lastRecorded]
+				if ok, _ := db.IsLocalBackupOK(lr.term, lr.index); !ok {
+					time.Sleep(200 * time.Millisecond)
+					var e2 error
+					if ok, e2 = db.IsLocalBackupOK(lr.term, lr.index); !ok {
+						c.Violation("recorded-checkpoint-discarded", fmt.Sprintf("after %s at index %d (keep %d): the checkpoint of the newest recorded raft snapshot (index %d) is gone or unusable: %v", f[0], index, keep, lr.index, e2))
+					}
+				}
+			}
 			return fmt.Sprintf("ok id=%d", len(bks)-1)
 		case "restore":
 			k, _ := strconv.Atoi(f[1])
@@ -244,9 +280,22 @@ func newCkpt(c *Ctx) func(string) string {
 			b := bks[k]
 			ckdir := filepath.Join(db.GetBackupDir(), rockredis.GetCheckpointDir(b.term, b.index))
 			if _, err := os.Stat(ckdir); err != nil {
-				c.Violation("checkpoint-discarded", fmt.Sprintf("checkpoint %d of %d no longer exists", b.index, len(bks)))
+				// purged: legitimate only for a checkpoint below the newest recorded one that is not among the newest `keep`
+				newer := 0
+				for _, o := range bks {
+					if o.index > b.index {
+						newer++
+					}
+				}
+				if k == lastRecorded || lastRecorded < 0 || b.index >= bks[lastRecorded].index || newer < keep {
+					c.Violation("checkpoint-discarded", fmt.Sprintf("checkpoint at index %d no longer exists (keep %d, %d newer ones, newest recorded index %v)", b.index, keep, newer, lastRecorded))
+				}
 				return "err:gone"
 			}
+			// the node records the raft snapshot it is about to install (persistRaftState: SaveSnap, UpdateSnapshotState) BEFORE
+			// the state machine restores its checkpoint, so from here on this checkpoint is the recorded one
+			db.VerifSetLatestSnapIndex(b.index)
+			lastRecorded = k
 			if err := db.Restore(b.term, b.index); err != nil {
 				c.Violation("restore-failed", err.Error())
 				return "err:restore"
@@ -264,7 +313,9 @@ func newCkpt(c *Ctx) func(string) string {
 					c.Violation("checkpoint-damaged", fmt.Sprintf("checkpoint %s changed on disk (after restore of index %d)", filepath.Base(d), b.index))
 				}
 			}
-			// the node is now at the checkpoint's index and replays the same log from there
+			// the node is now at the checkpoint's index and replays the same log from there. A node only ever restores the
+			// checkpoint of its newest RECORDED raft snapshot (indexes never go back otherwise), so this checkpoint is the
+			// recorded one from here on
 			index = b.index
 			return "ok"
 		}
